@@ -314,3 +314,29 @@ def run(ck):
     ck.ob('C24.backoff', 'C24.backoff/attempts-reset-only-for-new-provider', not odd24, saf.loc(odd24[0][0]) if odd24 else saf.loc(),
           'schedule_assigned_fetch zeroes `attempts` only for a freshly inserted entry or when the announcing peer differs from the stored one '
           '(a re-announcement by the same provider must not restart the attempt limit and the back-off)' + ('' if not odd24 else ' — under %s' % odd24[0][1][:80]))
+
+    # ---- the retry schedule is the configured one: nothing rewrites the fetch_retry_* settings ---------------------------------------------------------
+    from sa.flow import field_accesses as _fa24
+    rw24 = [(f, i, m_) for f in P.fns for i, m_, w_ in _fa24(f) if w_ and m_.startswith('ephemeralnet::Config::fetch_retry_') and f.kind != 'ctor']
+    ck.ob('C24.backoff', 'C24.backoff/retry-settings-not-rewritten', not rw24, rw24[0][0].loc(rw24[0][1]) if rw24 else '',
+          'no function of the node assigns Config::fetch_retry_* (e.g. raising a small maximum back-off to the initial one would change the documented schedule)'
+          + ('' if not rw24 else ' — %s written in %s' % (rw24[0][2].split('::')[-1], rw24[0][0].name)))
+
+    # ---- the in-flight flag and the slot are taken from the final dispatch verdict: `dispatched` is not assigned again after it was recorded ----------
+    from sa.paths import reaches as _reaches24
+    from sa.flow import all_defs as _ad24
+    dpf = P.fn(N + 'dispatch_pending_fetch')
+    ck.touch(dpf)
+    rec24 = [(l_, r_, s_) for l_, r_, s_ in _asg24(dpf) if dpf.nodes[dpf.strip(l_, casts=False)].get('m') == PFS + 'in_flight' and
+             dpf.nodes[dpf.strip(r_)]['k'] == 'DeclRefExpr']
+    stale24 = []
+    for l_, r_, s_ in rec24:
+        d_ = dpf.nodes[dpf.strip(r_)]['d']
+        starts24 = [i for i in dpf.walk() if dpf.nodes[i].get('callee') == N + 'note_dispatch_start']
+        for kind_, rhs_, site_ in _ad24(dpf, d_):
+            if kind_ != 'init' and (_reaches24(dpf, s_, site_) or any(_reaches24(dpf, st_, site_) for st_ in starts24)):
+                stale24.append((site_, s_))
+    ck.floor('C24.typestate', 'in_flight = <dispatch verdict> in dispatch_pending_fetch', len(rec24), 1)
+    ck.ob('C24.typestate', 'C24.typestate/verdict-final-when-recorded', not stale24, dpf.loc(stale24[0][0]) if stale24 else dpf.loc(),
+          'dispatch_pending_fetch records in_flight / takes the provider slot after the last assignment of the dispatch verdict (a request sent through the '
+          'connect-and-send fallback is tracked like a direct one)')
